@@ -2940,6 +2940,14 @@ rfbProcessClientNormalMessage(rfbClientPtr cl)
 	 * from accessing uninitialized memory (CVE-2018-7225) and also to
 	 * prevent from a denial-of-service by allocating too much memory in
 	 * the server. */
+#ifdef LIBVNCSERVER_HAVE_LIBZ
+	/* In the extended format the 1 MB limit applies to every inflated record (see
+	 * rfbProcessExtendedServerCutTextData); the compressed message of a text within
+	 * that limit can be slightly larger than the text, so it gets 1 KB of slack. */
+	if (isExtendedCutText && msg.cct.length <= (1<<20) + 1024) {
+	    /* accepted */
+	} else
+#endif
 	if (msg.cct.length > 1<<20) {
 	    rfbLog("rfbClientCutText: too big cut text length requested: %u B > 1 MB\n", (unsigned int)msg.cct.length);
 	    rfbCloseClient(cl);
